@@ -247,6 +247,9 @@ def _counter_and_chunk(prog):
     nxt = base.methods.get("__next__")
     if nxt is None:
         raise AnalysisError("C18.R2: DataChunkReader.__next__ vanished")
+    from ..inline import inlined
+
+    nxt = inlined(prog, nxt, keep={"_get_next_chunk"})  # private predicates / helpers of the reader expanded in place
     incs = [x for x in walk_no_nested(nxt.node) if isinstance(x, ast.AugAssign) and isinstance(x.op, ast.Add) and isinstance(x.target, ast.Attribute)]
     if not incs or len({unparse(x.target) for x in incs}) != 1:
         raise AnalysisError(f"C18.R2: counter increment in __next__ not recognised ({len(incs)} candidates)")
@@ -291,18 +294,21 @@ def rule_r2(prog, res) -> None:
         res.violation("C18.R2", nxt, reads[0].ast, "a chunk can be read without the iteration counter having been advanced (the same slice is delivered again)", key_extra="read-without-increment")
     # increments on paths that return None (worker ranks) must also advance, i.e. the increment dominates every normal exit except StopIteration
     # (2) stop test evaluated at the boundary
-    tests = [t for t in cfg.nodes if t.kind == "test" and N in unparse(t.expr)]
+    from .common import expand_locals
+
+    tests = [(t, expand_locals(nxt.node, t.expr, set())) for t in cfg.nodes if t.kind == "test"]
+    tests = [(t, tx) for t, tx in tests if N in unparse(tx)]
     stop_ok = False
-    for t in tests:
+    for t, tx in tests:
         total = None
-        for x in ast.walk(t.expr):
+        for x in ast.walk(tx):
             if isinstance(x, ast.Attribute) and "num_records" in x.attr:
                 total = unparse(x)
         if total is None:
             continue
         try:
-            below = bool(ceval(t.expr, {N: 9, total: 10, C: 3}))
-            above = bool(ceval(t.expr, {N: 12, total: 10, C: 3}))
+            below = bool(ceval(tx, {N: 9, total: 10, C: 3}))
+            above = bool(ceval(tx, {N: 12, total: 10, C: 3}))
         except Unknown:
             continue
         raises_on_true = any(isinstance(cfg.nodes[j].ast, ast.Raise) for b, lab in cfg.succ[t.id] if lab == "t" for j, _ in cfg.succ[b])
@@ -399,7 +405,10 @@ def rule_r2(prog, res) -> None:
     pq = next((c for c in classes if "_extract_chunk" in c.methods), None)
     if pq is None:
         raise AnalysisError("C18.R2: row-group reader (_extract_chunk) vanished")
-    ex = pq.methods["_extract_chunk"]
+    from ..inline import inlined
+
+    # private helpers of the reader (e.g. an extracted "pop cached groups" method) are expanded in place
+    ex = inlined(prog, pq.methods["_extract_chunk"], keep={"_get_next_chunk", "_load_groups", "_extract_chunk"})
     res.touch(ex)
     resolve = single_def_resolver(ex.node)
     head = tail = None
@@ -432,6 +441,7 @@ def rule_r2(prog, res) -> None:
     lg = pq.methods.get("_load_groups")
     if lg is None:
         raise AnalysisError("C18.R2: _load_groups vanished")
+    lg = inlined(prog, lg, keep={"_get_next_chunk", "_load_groups", "_extract_chunk", "_get_group_cache_size"})
     res.touch(lg)
     rr = [c for c in calls_in(lg) if isinstance(c.func, ast.Attribute) and c.func.attr == "read_row_group"]
     incs = [x for x in walk_no_nested(lg.node) if isinstance(x, ast.AugAssign) and isinstance(x.op, ast.Add) and isinstance(x.value, ast.Constant) and x.value.value == 1]
@@ -469,55 +479,22 @@ def _check_last_chunk(prog, res, g: FuncInfo, N: str, C: str) -> None:
     if total is None:
         res.violation("C18.R2", g, g.node, "the random reader never compares its counter with the requested number of records: the last chunk is not truncated and the catalog is larger than requested", key_extra="random-no-truncation")
         return
-    results = []
+    from .. import symx
 
-    def run(stmts, env, conds):
-        for k, st in enumerate(stmts):
-            if isinstance(st, ast.Expr):
-                continue
-            if isinstance(st, ast.Assign) and len(st.targets) == 1 and isinstance(st.targets[0], ast.Name):
-                env = {**env, st.targets[0].id: affine(st.value, lambda n, env=env: None) if False else _aff(st.value, env)}
-            elif isinstance(st, ast.AugAssign) and isinstance(st.target, ast.Name):
-                cur = env.get(st.target.id, {st.target.id: Fraction(1)})
-                v = _aff(st.value, env)
-                sgn = 1 if isinstance(st.op, ast.Add) else -1 if isinstance(st.op, ast.Sub) else None
-                if sgn is None:
-                    raise AnalysisError("C16.R4: unsupported update of the probe size")
-                out = dict(cur)
-                for kk, vv in v.items():
-                    out[kk] = out.get(kk, 0) + sgn * vv
-                env = {**env, st.target.id: {a: b for a, b in out.items() if b != 0}}
-            elif isinstance(st, ast.If):
-                run(st.body + stmts[k + 1 :], env, conds + [(st.test, True)])
-                run(st.orelse + stmts[k + 1 :], env, conds + [(st.test, False)])
-                return
-            elif isinstance(st, ast.Return):
-                results.append((conds, env, st.value))
-                return
-            else:
-                raise AnalysisError(f"C16.R4: statement {norm_stmt(st)} in the random reader not supported")
-
-    def _aff(e, env):
-        a = affine(e)
-        out: dict = {}
-        for k, v in a.items():
-            if k in env:
-                for kk, vv in env[k].items():
-                    out[kk] = out.get(kk, 0) + v * vv
-            else:
-                out[k] = out.get(k, 0) + v
-        return {k: v for k, v in out.items() if v != 0}
-
-    run(g.node.body, {}, [])
-    if not results:
+    paths = [p for p in symx.explore(prog, g, inline=lambda caller, call, callee: callee.cls is not None and callee.name not in ("_get_next_chunk", "get_probe", "__call__")) if p.outcome == "return"]
+    if not paths:
         raise AnalysisError("C16.R4: random reader returns nothing")
-    for conds, env, ret in results:
+    for p in paths:
+        ret = p.value
         if not (isinstance(ret, ast.Call) and ret.args):
             raise AnalysisError("C16.R4: random reader does not return generator(size)")
-        size = _aff(ret.args[0], env)
+        try:
+            size = affine(ret.args[0])
+        except Exception:  # noqa: BLE001
+            size = {unparse(ret.args[0]): 1}
         # classify the path: counter beyond total or not
         beyond = None
-        for test, pol in conds:
+        for test, pol in p.literals():
             try:
                 t_b = bool(ceval(test, {N: 12, total: 10}))
                 t_i = bool(ceval(test, {N: 9, total: 10}))
@@ -537,7 +514,7 @@ def _check_last_chunk(prog, res, g: FuncInfo, N: str, C: str) -> None:
                 f"on the path of a {label} the generator is asked for {fmt_affine(size)} records, expected {fmt_affine(want)}: the random catalog does not have exactly the requested size",
                 key_extra=f"random-{'last' if beyond else 'full'}-chunk-size",
             )
-    if not any(True for conds, _, _ in results if conds):
+    if not any(p.conds for p in paths):
         res.violation("C18.R2", g, g.node, "the random reader never truncates the last chunk", key_extra="random-no-truncation")
 
 
@@ -597,8 +574,22 @@ def rule_r3(prog, res) -> None:
     if gp is None:
         raise AnalysisError("C18.R3: DataReader.get_probe vanished")
     res.touch(gp)
-    loops = [x for x in walk_no_nested(gp.node) if isinstance(x, ast.For)]
-    if len(loops) == 1 and "self" in unparse(loops[0].iter):
+    # the pass may live in a closure / generator defined inside get_probe that is used exactly once
+    inner = [f for f in gp.module.all_funcs if f.parent is gp]
+    loops = [x for f in [gp, *inner] for x in walk_no_nested(f.node) if isinstance(x, (ast.For, ast.comprehension)) and "self" in unparse(x.iter)]
+    uses = {f.name: [c for c in calls_in(gp) if isinstance(c.func, ast.Name) and c.func.id == f.name] for f in inner}
+    pmg = parents_map(gp.node)
+
+    def in_loop(node) -> bool:
+        cur = pmg.get(id(node))
+        while cur is not None:
+            if isinstance(cur, (ast.For, ast.While, ast.comprehension, ast.ListComp, ast.GeneratorExp)):
+                return True
+            cur = pmg.get(id(cur))
+        return False
+
+    once = all(len(u) == 1 and not in_loop(u[0]) for u in uses.values())
+    if len(loops) == 1 and once:
         res.ok("C18.R3", res.site(gp), "probe gathered chunk-wise in one pass over iter(self)")
     else:
         res.violation("C18.R3", gp, gp.node, "the sparse probe is not gathered in a single chunk-wise pass", key_extra="probe-shape")
